@@ -99,9 +99,9 @@ var (
 	ExprValues = map[string]string{"E1": `V1<&>`, "E2": `V2"'=`, "M1": `M1&v`, "K1": "cls1", "K12": "cls1 cls2"}
 	// ConstSpelled is how a constant attribute value id is written in the source (double-quoted form);
 	// ConstDecoded is the value the attribute denotes.
-	ConstDecoded = map[string]string{"k1": "v1", "k2": "a&b<c", "k3": `q"q`, "k4": "x&lt;y&#39;"}
-	constDQ      = map[string]string{"k1": "v1", "k2": "a&amp;b&lt;c", "k3": `q&quot;q`, "k4": "x&amp;lt;y&amp;#39;"}
-	constSQ      = map[string]string{"k1": "v1", "k2": "a&amp;b&lt;c", "k3": `q"q`, "k4": "x&amp;lt;y&amp;#39;"}
+	ConstDecoded = map[string]string{"k1": "v1", "k2": "a&b<c", "k3": `q"q`, "k4": "x&lt;y&#39;", "k5": "/e?a=1&copy=2&lt=3"}
+	constDQ      = map[string]string{"k1": "v1", "k2": "a&amp;b&lt;c", "k3": `q&quot;q`, "k4": "x&amp;lt;y&amp;#39;", "k5": "/e?a=1&amp;copy=2&amp;lt=3"}
+	constSQ      = map[string]string{"k1": "v1", "k2": "a&amp;b&lt;c", "k3": `q"q`, "k4": "x&amp;lt;y&amp;#39;", "k5": "/e?a=1&amp;copy=2&amp;lt=3"}
 	RawContents  = map[string]string{"style": "p{color:red}", "script": "var x = 1 < 2 && 3 > 2;"}
 )
 
@@ -235,7 +235,7 @@ func (p *printer) nodes(ns []Node, depth int) {
 		// templ's parsers for `{ ... }` nodes swallow leading SPACES (openBraceWithOptionalPadding), so spaces
 		// between a node without trailing-space information and a `{` would not be a whitespace node:
 		// write a tab, the class (horizontal) is what the abstract program fixes.
-		if i+1 < len(ns) && (n.K == "slot" || n.K == "hcomment" || n.K == "raw") && n.After == "h" {
+		if i+1 < len(ns) && (n.K == "slot" || n.K == "hcomment" || n.K == "mcomment" || n.K == "raw") && n.After == "h" {
 			switch ns[i+1].K {
 			case "slot", "expr", "gocode":
 				if p.v != 2 {
@@ -353,6 +353,13 @@ func (p *printer) node(n Node, depth int) {
 	case "hcomment":
 		p.sb.WriteString("<!-- c -->")
 		p.ws(n.After, depth)
+	case "mcomment":
+		p.sb.WriteString("/* mc */")
+		p.ws(n.After, depth)
+	case "gocodeml":
+		// a Go block spanning several lines whose continuation line belongs to a raw string literal
+		p.sb.WriteString("{{\n" + strings.Repeat("\t", depth+1) + "env.GS(`l1\nl2`)\n" + strings.Repeat("\t", depth) + "}}")
+		p.ws("v", depth)
 	case "gcomment":
 		p.sb.WriteString("// gc")
 		if p.v == 2 {
